@@ -14,7 +14,7 @@ unbracketed chains; (2) structural templates (recursion, array parameters, strin
 length, scoping, label-like names, arities, streams, stop); (3) seeded random programs.
 """
 import os, json, shutil, re, collections
-import vlib, xlib
+import vlib, xlib, xframes
 
 PID = "C01"
 
@@ -120,6 +120,22 @@ def peephole(chk, cases, res, d):
         chk.set("drift_examples", drift[:3])
 
 
+def frames(chk, exe, cases, verd, d, tier):
+    """mechanism grade: XFrames (the calling convention) is model-checked, shown to rest on its store discipline, and the
+    runs of a seeded sample of the agreeing programs are validated against it"""
+    r = vlib.tlc("XFramesMC", cfg="XFramesMC.cfg", workers=8, heap="4g")
+    chk.add("states", r.distinct); chk.add("transitions", r.states)
+    if r.violation:
+        chk.set("DRIFT_XFrames_own_invariants", r.out[-1500:])
+    rp = vlib.tlc("XFramesMC", cfg="XFramesPinned.cfg", workers=4, heap="2g")
+    if not rp.violation:
+        raise vlib.MachineryError("XFramesPinned: a body storing into its link slot no longer breaks ReturnsToCaller - the model checks nothing")
+    rng = vlib.rng(101)
+    pool = [c for c, v in zip(cases, verd) if v['v'] == 'ok']
+    rng.shuffle(pool)
+    xframes.conformance(chk, exe, pool[:2500 if tier == "quick" else 30000], d)
+
+
 def run(tier, replay=None):
     chk = vlib.Check(PID, tier, "model_checking")
     d = vlib.rundir("c01")
@@ -142,6 +158,7 @@ def run(tier, replay=None):
             raise vlib.MachineryError("canary accepted: binding is not live (%s)" % verd[-1])
         ok, cnt = judge(chk, cases, res, verd[:-1])
         steps = sum(v['n'] for v in verd[:-1])
+        frames(chk, exe, cases, verd[:-1], d, tier)
         chk.add("states", steps); chk.add("transitions", steps)
         chk.set("programs", len(cases))
         chk.set("verdicts", dict(cnt))
